@@ -1,16 +1,34 @@
+VX = 'contract-based deductive verification: Verus on functions extracted mechanically from /repo on every run'
+claim('C03', 'DESIGN 4/C03',
+      'Verus mode S with R2 (get_unchecked -> indexed access, so the bound is the obligation) proves every unchecked access of transpose_small in bounds for all sizes, every slice split/index/copy in MixedRadix, MixedRadixSmall, GoodThomasAlgorithm(Small) perform_fft_* in bounds under the helper contract, and that the validate_and_* helpers never index outside the caller buffers.',
+      'Not under contract (assumed): all AVX/SSE kernels, butterflies, Radix4/Radix3/RadixN/Rader/Bluestein/Dft bodies, GoodThomas reindex_* (bounds-checked indexing), external crate transpose.')
+claim('C05', 'DESIGN 4/C05',
+      'Structural clauses only: each portable wrapper constructor under contract is proved to advertise scratch no larger than the stated closed formula of its inner transforms\' needs (clauses tagged @C05).',
+      'Operation-count clause (64 n log2 n) is not decided by any contract; global 12n+64 bound and no-naive-node clause pending the planner unit.')
+claim('C06', 'DESIGN 4/C06',
+      'FftCache: get(len, d) returns only an instance with s_len == len and s_dir == d; insert files an instance under its own (len, direction) and leaves all other entries unchanged; constructors under contract thread the direction unchanged (s_dir postconditions).',
+      'The numerical round-trip identity forward(inverse(x)) == n*x is floating point: not decided.')
 claim('C07', 'DESIGN 4/C07, 3.2',
       'Verus proves, for all lengths/chunk sizes/scratch lengths, that the six validate_and_* iterators and six fft_helper_* hand the chunk function exactly chunks 0..k in order, each alone with a scratch of exactly the advertised length, and that the final buffer is the concatenation of per-chunk results (relational postcondition over the whole buffer).',
-      'Assumed: behaviour of the chunk functions themselves (each algorithm kernel; SSE two-chunk kernels treat halves independently); independence from stale scratch contents is C08.')
+      'Assumed: behaviour of the chunk functions themselves (each algorithm kernel; SSE two-chunk kernels treat halves independently); independence from stale scratch contents is C08. Verus models FnMut closures as not changing state across calls (the real closures capture &self only).')
+claim('C08', 'DESIGN 4/C08',
+      '(i) advertised suffices: each perform_fft_* of MixedRadix, MixedRadixSmall, GoodThomasAlgorithm, GoodThomasAlgorithmSmall verifies with scratch of exactly the advertised length against the inner transforms\' contracts, for arbitrary inner dyn Fft; (ii) longer is identical: helpers pass exactly scratch[..required].',
+      '(iii) independence from scratch *contents* is not yet decided (planned bounded Kani taint harness). Other algorithms not yet under contract.')
 claim('C09', 'DESIGN 4/C09, 2.2',
-      'Mode P (panic = divergence) proves that a normal return from any fft_helper_* implies len==0 or a well-shaped call, so every ill-shaped call panics; mode S proves well-shaped calls reach no panic in the helpers. Both on the extracted real text of array_utils.rs, fft_helper.rs, common.rs.',
-      'Assumed: SIMD kernels are panic-free at exact lengths; per-impl conformance of the macro-generated process_* bodies is covered only for the units listed in evidence.')
+      'Mode P (panic = divergence) proves that a normal return from any fft_helper_* and from process_* of the transforms under contract implies len==0 or a well-shaped call, so every ill-shaped call panics; mode S proves well-shaped calls reach no panic in helpers and in the perform_fft_* under contract.',
+      'Assumed: SIMD kernels and the algorithms not yet under contract are panic-free at exact lengths.')
+claim('C10', 'DESIGN 4/C10',
+      'FftCache well-formedness is an invariant over every history: new() establishes it, insert preserves it, get under it returns the requested (len, direction).',
+      'Planner-level invariant pending the planner unit; AVX replan not covered.')
+claim('C12', 'DESIGN 4/C12',
+      'Each constructor under contract (MixedRadix, MixedRadixSmall, GoodThomasAlgorithm) is verified in mode S under its documented precondition for an arbitrary inner dyn Fft satisfying the trait contract, establishing the type invariant under which perform_fft_* are verified; so any nesting depth is covered by induction over the trait contract.',
+      'GoodThomasAlgorithmSmall::new is an assumed contract (iterator chains); other constructors pending. Value-level correctness of composites not decided.')
 for pid, why in [
     ('C01', 'not built yet (planned: index/permutation skeleton)'),
     ('C02', 'a quantitative floating-point rounding bound needs an error calculus neither Verus nor CBMC has'),
-    ('C03', 'not built yet'), ('C04', 'not built yet'), ('C05', 'not built yet'), ('C06', 'not built yet'),
-    ('C08', 'not built yet'), ('C10', 'not built yet'),
+    ('C04', 'not built yet'),
     ('C11', 'a property over thread interleavings: Kani has no threads, Verus would need the crate rewritten over permission types'),
-    ('C12', 'not built yet'), ('C13', 'not built yet'), ('C14', 'not built yet'), ('C15', 'not built yet'),
+    ('C13', 'not built yet'), ('C14', 'not built yet'), ('C15', 'not built yet'),
     ('C16', 'API stability is decided by the type checker on a witness crate, not by a contract'),
 ]:
     na(pid, why)
